@@ -50,11 +50,13 @@ func SentinelMiddleware(opts ...Option) ghttp.HandlerFunc {
 		}
 		r.Middleware.Next()
 		// goframe keeps the error a handler returned (and a recovered handler panic) on the request
-		if err := r.GetError(); err != nil && (standIn == nil || err != error(standIn)) {
-			api.TraceError(entry, err)
-		} else if standIn != nil {
+		if err := r.GetError(); standIn != nil && err == error(standIn) {
 			r.SetError(standIn.error)
+		} else if err != nil {
+			api.TraceError(entry, err)
 		}
+		// (a slot that is empty now was emptied behind the adapter - goframe itself does that before every
+		// standard handler - and stays empty)
 	}
 }
 
